@@ -258,6 +258,16 @@ func execOp(line string) string {
 			return "err"
 		}
 		return "ok " + showVal(v.Elem())
+	case "encbuf":
+		if len(w) != 2 {
+			return "bad-op"
+		}
+		v, err := buildVal(ifaceType, w[1])
+		if err != nil || v.IsNil() {
+			return "bad-op"
+		}
+		b, err := rlp.EncodeToBytes(v.Interface())
+		return resE(hx.Hex(b), err)
 	case "enc":
 		if len(w) != 3 {
 			return "bad-op"
